@@ -277,4 +277,23 @@ static void hwv_dump_insert(FILE *f, hwloc_topology_t t, int when, hwloc_obj_t r
   fputs("E\n", f);
   hwv_map_free(&m);
 }
+
+/* light trace: only the object handed to the core (phase 20: normal insertion starting at the root, 22: memory object) */
+static void hwv_dump_request(FILE *f, hwloc_topology_t t, int phase, hwloc_obj_t obj)
+{
+  struct hwv_map m;
+  int ty;
+  hwv_map_init(&m);
+  hwv_enum(&m, obj);
+  fprintf(f, "T flags=%lu depth=0 nobj=%u phase=%d insroot=- ins=0 res=- same=0 filters=", hwloc_topology_get_flags(t), m.n, phase);
+  for (ty = 0; ty < HWLOC_OBJ_TYPE_MAX; ty++) {
+    enum hwloc_type_filter_e fl = HWLOC_TYPE_FILTER_KEEP_ALL;
+    hwloc_topology_get_type_filter(t, (hwloc_obj_type_t)ty, &fl);
+    fprintf(f, "%s%d", ty ? "," : "", (int)fl);
+  }
+  fputs(" acpu=- anode=-\n", f);
+  hwv_dump_objs(f, &m, 0);
+  fputs("E\n", f);
+  hwv_map_free(&m);
+}
 #endif
